@@ -135,6 +135,8 @@ def cases(draw):
         'then_valid_reload': draw(st.booleans()),
         'ribout': ribout,
         'readd': draw(route_set()) if (n_old == 2 and len(new) == 1) else None,
+        'mid': draw(evolve(old[0]['routes'])) if (session_up and draw(st.integers(0, 2)) == 0 and not any('v4only' in nb for nb in old + new)) else None,
+        'mid_gap': draw(st.sampled_from([-1.0, -1.0, 0.0, 0.03, 0.3, 2.0])),
     }
 
 
@@ -218,9 +220,16 @@ def check(case: dict) -> dict:
             results = []
             real_reload = hn.reactor.reload
 
+            during: list = []
+
             def spy_reload():
                 r = real_reload()
                 results.append(bool(r))
+                if during:
+                    # the next SIGUSR1 arrived while this file was being read (the handler is re-armed before the reload starts)
+                    with open(path, 'w') as fh:
+                        fh.write(during.pop())
+                    hn.signal_reload()
                 return r
 
             hn.reactor.reload = spy_reload
@@ -256,13 +265,43 @@ def check(case: dict) -> dict:
                 text = new_text if kind is None else broken(new_text if case['new'] else old_text, kind, case['break_at'])
                 with open(path, 'w') as fh:
                     fh.write(text)
-            n_results = len(results)
-            if case['via'] == 'signal':
+            if case.get('mid') is not None and kind is None:
+                # two reloads one behind the other: a first valid file (same neighbors, other routes) is loaded, and the file judged
+                # follows `mid_gap` seconds after that reload was executed (0: before the peers have looked at it)
+                mid = [dict(nb, routes=case['mid']) if i == 0 else nb for i, nb in enumerate(case['old'])]
+                with open(path, 'w') as fh:
+                    fh.write(render(mid, ribout, process=not case.get('no_process')))
+                n_results = len(results)
+                if case.get('mid_gap', 0.0) < 0:
+                    during.append(text)
+                hn.signal_reload()
+                for _ in range(700):
+                    if len(results) > n_results:
+                        break
+                    await hn.sleep(0.01)
+                if len(results) == n_results or not results[n_results]:
+                    raise Inconclusive('the first of the two reloads was not executed')
+                if case.get('mid_gap', 0.0) >= 0:
+                    await hn.sleep(case.get('mid_gap', 0.0))
+                    with open(path, 'w') as fh:
+                        fh.write(text)
+                n_results += 1
+            else:
+                n_results = len(results)
+            if case.get('mid') is not None and kind is None and case.get('mid_gap', 0.0) < 0:
+                pass
+            elif case['via'] == 'signal':
                 hn.signal_reload()
             else:
                 hn.api_write(b'daemon reload\n')
             await hn.sleep(2.0)
             hn.api_read()
+            if len(results) == n_results and case.get('mid') is not None and kind is None:
+                # a reload request that arrives while the updates of the previous one are still pending is dropped by the reactor
+                # (upstream behaviour, outside the statement): the operator asks again
+                out['asked_again'] = True
+                hn.signal_reload()
+                await hn.sleep(2.0)
             if len(results) == n_results:
                 # reload waits for pending adj-rib-out: give it time
                 await hn.sleep(5.0)
@@ -356,7 +395,7 @@ def check(case: dict) -> dict:
 
     kind = case['break']
     fam_change = any(bool(o.get('v4only')) != bool(n.get('v4only')) for o in case['old'] for n in case['new'] if o['peer'] == n['peer'])
-    classes = [f'no-process-configured:{bool(case.get("no_process"))}', f'new:{kind or "valid"}', f'session-up:{case["session_up"]}', f'family-set-changed:{fam_change}', f'via:{case["via"]}', f'adj-rib-out:{case.get("ribout", True)}']
+    classes = ([f'two-reloads:gap-{case.get("mid_gap", 0.0)}' + (':asked-again' if out.get('asked_again') else '')] if case.get('mid') is not None and kind is None else []) + [f'no-process-configured:{bool(case.get("no_process"))}', f'new:{kind or "valid"}', f'session-up:{case["session_up"]}', f'family-set-changed:{fam_change}', f'via:{case["via"]}', f'adj-rib-out:{case.get("ribout", True)}']
     if out['reload_ok']:
         if kind in ('missing', 'directory'):
             raise Violation(f'reload:accepted-{kind}-file', 'reload reported success')
@@ -405,7 +444,7 @@ def check(case: dict) -> dict:
             if old:
                 om = {r[0]: r for r in old['routes']}
                 changed = changed or any(r[0] in om and om[r[0]] != r for r in nb['routes'])
-        return {'nontrivial': changed or not case['session_up'], 'classes': classes + (['same-prefix-change'] if changed else [])}
+        return {'nontrivial': changed or not case['session_up'] or case.get('mid') is not None, 'classes': classes + (['same-prefix-change'] if changed else [])}
     # ---- failed reload: nothing may have changed
     classes.append('reload-failed')
     if kind is None:
@@ -438,6 +477,15 @@ def fixed_cases() -> list:
     out = []
     for up in (True, False):
         out.append({'no_process': False, 'old': [{'peer': 0, 'hold': 30, 'routes': [[0, 1, 0]]}, {'peer': 1, 'hold': 30, 'routes': [[0, 1, 0], [1, 2, 0]]}], 'new': [{'peer': 0, 'hold': 30, 'routes': [[0, 1, 0]]}], 'break': None, 'break_at': 0, 'session_up': up, 'api': [], 'via': 'signal', 'then_valid_reload': False, 'ribout': True, 'readd': [[2, 3, 0]]})
+    # two reloads one behind the other (old -> mid -> new): the first removes a route and adds one, the second changes nothing more / puts
+    # the first state back; what the peer holds at the end is the last file
+    for gap in (-1.0, 0.0, 0.3):
+        for up in (True,):
+            for new_routes in ([[1, 1, 0]], [[1, 1, 0], [2, 2, 0]]):
+                # the first of the two only removes a route (nothing of it is pending when the second arrives)
+                out.append({'no_process': False, 'old': [{'peer': 0, 'hold': 30, 'routes': [[0, 1, 0], [1, 1, 0]]}], 'new': [{'peer': 0, 'hold': 30, 'routes': new_routes}], 'break': None, 'break_at': 0, 'session_up': up, 'api': [], 'via': 'signal', 'then_valid_reload': False, 'ribout': True, 'readd': None, 'mid': [[1, 1, 0]], 'mid_gap': gap})
+            for new_routes in ([[1, 1, 0], [2, 2, 0]], [[0, 1, 0], [1, 1, 0]]):
+                out.append({'no_process': False, 'old': [{'peer': 0, 'hold': 30, 'routes': [[0, 1, 0], [1, 1, 0]]}], 'new': [{'peer': 0, 'hold': 30, 'routes': new_routes}], 'break': None, 'break_at': 0, 'session_up': up, 'api': [], 'via': 'signal', 'then_valid_reload': False, 'ribout': True, 'readd': None, 'mid': [[1, 1, 0], [2, 2, 0]], 'mid_gap': gap})
     return out
 
 
